@@ -22,10 +22,11 @@ EXTENDS ManagerDisc, Sequences, TLC, Json, IOUtils
 VARIABLES l, active, disc, pend,   \* pend: controller |-> its call in progress
           inc,                     \* target |-> number of its current incarnation (a new one per successful Add)
           rt,                      \* target |-> its effective receive timeout in ms (0 = none), from the driver's "tcfg" marker
-          cause                    \* target |-> since its last Reset something has happened that may end a session of the target
+          cause,                   \* target |-> since its last Reset something has happened that may end a session of the target
+          emptyMsg                 \* target |-> since its last Reset the target has sent a response with nothing in it
 
 Trace == ndJsonDeserialize(IOEnv.TRACE)
-tvars == <<l, active, disc, pend, inc, rt, cause>>
+tvars == <<l, active, disc, pend, inc, rt, cause, emptyMsg>>
 Ev == Trace[l]
 St(name) == l <= Len(Trace) /\ Trace[l].ev = name /\ l' = l + 1
 
@@ -39,12 +40,12 @@ SeqSet(q) == {q[i] : i \in 1..Len(q)}
 (* target names: every known one is reconnected, the call fails (NotFound) iff some name is not managed             *)
 Many(e) == e.op = "ReconnectMany"
 
-TInit == l = 1 /\ active = {} /\ disc = <<>> /\ pend = <<>> /\ inc = <<>> /\ rt = <<>> /\ cause = <<>> /\ TLCSet(1, 1)
+TInit == l = 1 /\ active = {} /\ disc = <<>> /\ pend = <<>> /\ inc = <<>> /\ rt = <<>> /\ cause = <<>> /\ emptyMsg = <<>> /\ TLCSet(1, 1)
 
-TReset == St("reset") /\ active' = {} /\ disc' = <<>> /\ pend' = <<>> /\ inc' = <<>> /\ rt' = <<>> /\ cause' = <<>>
+TReset == St("reset") /\ active' = {} /\ disc' = <<>> /\ pend' = <<>> /\ inc' = <<>> /\ rt' = <<>> /\ cause' = <<>> /\ emptyMsg' = <<>>
 
 (* the driver announces the receive timeout in force for a target before adding it *)
-TCfg == St("tcfg") /\ rt' = Put(rt, Ev.t, Ev.rt) /\ UNCHANGED <<active, disc, pend, inc, cause>>
+TCfg == St("tcfg") /\ rt' = Put(rt, Ev.t, Ev.rt) /\ UNCHANGED <<active, disc, pend, inc, cause, emptyMsg>>
 
 (* callbacks may start as soon as Add has been invoked                      *)
 TInv ==
@@ -64,7 +65,7 @@ TInv ==
        /\ cause' = IF Ev.op \in {"Reconnect", "Remove"} THEN Put(cause, Ev.t, TRUE)
                    ELSE IF Many(Ev) THEN [x \in DOMAIN cause \cup SeqSet(Ev.ts) |-> IF x \in SeqSet(Ev.ts) THEN TRUE ELSE cause[x]]
                    ELSE cause
-    /\ UNCHANGED rt
+    /\ UNCHANGED <<rt, emptyMsg>>
 
 (* silent: the overlapping Remove has wound the old session down, the Add   *)
 (* begins a new incarnation of the target                                   *)
@@ -75,7 +76,7 @@ TSwitch ==
           /\ pend' = [pend EXCEPT ![c].sw = TRUE]
           /\ disc' = Put(disc, pend[c].t, D0)
           /\ inc' = Put(inc, pend[c].t, Get(inc, pend[c].t) + 1)
-    /\ UNCHANGED <<l, active, rt, cause>>
+    /\ UNCHANGED <<l, active, rt, cause, emptyMsg>>
 
 TRet ==
     /\ St("ret") /\ Busy(Ev.c) /\ pend[Ev.c].op = Ev.op /\ pend[Ev.c].t = Ev.t
@@ -89,14 +90,19 @@ TRet ==
     /\ cause' = IF Ev.op \in {"Reconnect", "Remove"} THEN Put(cause, Ev.t, TRUE)
                 ELSE IF Many(Ev) THEN LET q == pend[Ev.c].ts IN [x \in DOMAIN cause \cup SeqSet(q) |-> IF x \in SeqSet(q) THEN TRUE ELSE cause[x]]
                 ELSE cause
-    /\ UNCHANGED <<disc, inc, rt>>
+    /\ UNCHANGED <<disc, inc, rt, emptyMsg>>
 
 TCb ==
     /\ St("cb")
     /\ Ev.t \in active
-    /\ LET d == DStep(disc[Ev.t], Ev.k, Ev.id) IN
+    \* a response with nothing in it is a message (Connect is due) but has no callback of its own: a session
+    \* whose only messages were such ends with Connect followed directly by Reset
+    /\ LET d == IF Ev.k = "reset" /\ disc[Ev.t].q = "conn" /\ Ev.t \in DOMAIN emptyMsg /\ emptyMsg[Ev.t]
+                THEN [disc[Ev.t] EXCEPT !.q = "reset"]
+                ELSE DStep(disc[Ev.t], Ev.k, Ev.id) IN
        /\ d.q # "bad"
        /\ disc' = Put(disc, Ev.t, d)
+    /\ emptyMsg' = IF Ev.k = "reset" THEN Put(emptyMsg, Ev.t, FALSE) ELSE emptyMsg
     \* a session is not ended for no reason: unless a receive timeout is in force for the target, a Reset needs - since
     \* the target's previous Reset - the target to have ended a stream, or a Reconnect/Remove of the target (begun or returned)
     /\ (Ev.k = "reset" => (Get(rt, Ev.t) > 0 \/ CauseOf(Ev.t))) = TRUE
@@ -108,9 +114,10 @@ TCb ==
 TSrv == /\ St("srv")
         \* "end": the target ends the stream it has just served (possibly before the manager has looked at its first message)
         /\ cause' = IF Ev.k = "end" THEN Put(cause, Ev.t, TRUE) ELSE cause
+        /\ emptyMsg' = IF Ev.k = "empty" THEN Put(emptyMsg, Ev.t, TRUE) ELSE emptyMsg
         /\ UNCHANGED <<active, disc, pend, inc, rt>>
 
-TFinal == St("final") /\ active = {} /\ (\A c \in DOMAIN pend : ~Busy(c)) /\ UNCHANGED <<active, disc, pend, inc, rt, cause>>
+TFinal == St("final") /\ active = {} /\ (\A c \in DOMAIN pend : ~Busy(c)) /\ UNCHANGED <<active, disc, pend, inc, rt, cause, emptyMsg>>
 
 TNext == TReset \/ TCfg \/ TInv \/ TSwitch \/ TRet \/ TCb \/ TSrv \/ TFinal
 TSpec == TInit /\ [][TNext]_tvars
